@@ -3,6 +3,7 @@ package main
 import (
 	"fmt"
 	"go/token"
+	"go/types"
 	"sort"
 	"strings"
 
@@ -309,4 +310,77 @@ func (g *globScan) returnsLast(f *ssa.Function, idx int, depth int) bool {
 		}
 	}
 	return true
+}
+
+// c17EveryFilterKind: every field of WebhookEvent that is a filter (by its type) is handed to a checking function, at a
+// call that depends on nothing but the loop over the events, the event being a webhook event and that filter being present.
+func c17EveryFilterKind(c *Ctx, sitesOf map[string][]*ssa.Call) {
+	p := c.P
+	nm := p.Named("WebhookEvent")
+	if nm == nil {
+		c.anchorMissing("type WebhookEvent")
+		return
+	}
+	st, ok := nm.Underlying().(*types.Struct)
+	if !ok {
+		c.anchorMissing("struct WebhookEvent")
+		return
+	}
+	for i := 0; i < st.NumFields(); i++ {
+		f := st.Field(i)
+		if !strings.HasSuffix(typeStr(f.Type()), "WebhookEventFilter") {
+			continue
+		}
+		name, _ := fieldName(nm, i)
+		construct := name + "|filter validated for every webhook event"
+		sites := sitesOf[name]
+		if len(sites) == 0 {
+			c.bad(construct, f.Pos(), "the filter is never handed to a checking function of the glob rule: its patterns are not validated at all")
+			continue
+		}
+		// one unconditional site is enough
+		why := ""
+		for _, call := range sites {
+			why = ""
+			var arg ssa.Value
+			for _, a := range call.Call.Args {
+				if g, _ := fieldLoad(a); g == name {
+					arg = a
+				}
+			}
+			_, base := fieldLoad(arg)
+			heads := map[*ssa.BasicBlock]bool{}
+			for _, h := range loopHeaders(call.Parent()) {
+				if naturalLoop(h)[call.Block()] {
+					heads[h] = true
+				}
+			}
+			for ifi, outcome := range controllingConds(call.Block()) {
+				if heads[ifi.Block()] {
+					continue
+				}
+				if ex, ok := ifi.Cond.(*ssa.Extract); ok && ex.Index == 1 && outcome {
+					if ta, ok := ex.Tuple.(*ssa.TypeAssert); ok && ta.CommaOk {
+						if b0, ok := base.(*ssa.Extract); ok && b0.Tuple == ssa.Value(ta) && b0.Index == 0 {
+							continue
+						}
+					}
+				}
+				if v, nilSucc, ok := nilTest(ifi); ok && (nilSucc == 0) != outcome {
+					if g, b := fieldLoad(v); g == name && b == base {
+						continue
+					}
+				}
+				why = "the call at " + p.Pos(call.Pos()) + " depends on the condition at " + p.Pos(branchPos(ifi.Block()))
+			}
+			if why == "" {
+				break
+			}
+		}
+		if why == "" {
+			c.ok(construct, sites[0].Pos(), "handed to a checking function whenever the event is a webhook event")
+		} else {
+			c.bad(construct, sites[0].Pos(), why+": whether the patterns of this filter are validated depends on something other than the filter itself")
+		}
+	}
 }
